@@ -43,6 +43,10 @@ type DCVictim struct {
 	Burst int `json:"burst,omitempty"`
 	// Warmup: ordinary lock/unlock round trips on a key of its own before anything else
 	Warmup int `json:"warmup,omitempty"`
+	// Chain > 0: the client id reconnects that many times in a row; the requests the first connection
+	// left queued time out one after the other (2 s, 4 s, ...), each while another of those
+	// connections is the current one, and that connection is closed once it has got its reply
+	Chain int `json:"chain,omitempty"`
 }
 
 type DCBody struct {
@@ -84,6 +88,15 @@ func genDisconnect(prop string, seed uint64, tier string) *Scenario {
 			}
 		}
 		body.Victims = append(body.Victims, vc)
+	}
+	if ch := ssched.Sub(seed, "chain"); ch.Intn(4) == 0 {
+		// drawn from a generator of its own: one victim becomes a chain of reconnects
+		vc := &body.Victims[ch.Intn(len(body.Victims))]
+		vc.Text, vc.Reconnect, vc.ClientId = false, false, 40+ch.Intn(5)
+		vc.Chain = 2 + ch.Intn(2)
+		vc.NQueued = vc.Chain + 1
+		vc.CloseAtMs = 300 + ch.Intn(900)
+		vc.CloseMode = []string{"client", "client", "garbage", "server_reset"}[ch.Intn(4)]
 	}
 	raw, _ := json.Marshal(body)
 	k := genKnobs(r)
@@ -185,6 +198,7 @@ func runDisconnect(w *World) {
 		}
 		return true, ""
 	}
+	chainDone := map[int]bool{}
 	clientIdOfConn := map[int]int{} // history client -> announced client id
 	nextCid := 0
 	newConn := func(announce int) (*binClient, int, error) {
@@ -314,8 +328,13 @@ func runDisconnect(w *World) {
 					send(c, cid, &idx, OpSpec{Cmd: 1, Key: 10*v + 2 + k, Lid: lid, Expried: 8, Count: 0}, true)
 				}
 				queuedAt := w.now()
+				var qrecs []*ReqRec
 				for q := 0; q < vc.NQueued; q++ {
-					send(c, cid, &idx, OpSpec{Cmd: 1, Key: 10*v + 5 + q, Lid: lid, Timeout: vc.QTimeout, Expried: 2, Count: 0}, false)
+					to := vc.QTimeout
+					if vc.Chain > 0 {
+						to = uint16(2 + 2*q)
+					}
+					qrecs = append(qrecs, send(c, cid, &idx, OpSpec{Cmd: 1, Key: 10*v + 5 + q, Lid: lid, Timeout: to, Expried: 2, Count: 0}, false))
 				}
 				if d := t0.Add(time.Duration(vc.CloseAtMs) * time.Millisecond).Sub(w.now()); d > 0 {
 					sleep(d)
@@ -367,6 +386,48 @@ func runDisconnect(w *World) {
 					if _, _, err := newConn(vc.ClientId); err == nil {
 						w.probe("reconnects_with_same_client_id")
 					}
+				}
+				if vc.Chain > 0 {
+					// the replies to the requests the first connection left queued are addressed to the
+					// client id: each must reach the connection that is the client's current one when it is
+					// produced (the blocker keeps the keys, so the replies are the timeouts)
+					gotOn := func(rid [16]byte) int {
+						for _, rep := range h.stray {
+							if rep.StrayRid == rid && !rep.Recycled {
+								return rep.Conn
+							}
+						}
+						return -1
+					}
+					for i := 0; i <= vc.Chain && i < len(qrecs); i++ {
+						sleep(50 * time.Millisecond)
+						nc, ncid, err := newConn(vc.ClientId)
+						if err != nil {
+							break
+						}
+						connectedAt := w.now()
+						w.probe("chain_reconnects")
+						due := queuedAt.Add(time.Duration(2+2*i) * time.Second) // earliest moment of the reply
+						deadline := due.Add(3500 * time.Millisecond)
+						for w.now().Before(deadline) && gotOn(qrecs[i].Id) < 0 {
+							sleep(20 * time.Millisecond)
+						}
+						if on := gotOn(qrecs[i].Id); on != ncid && due.Sub(connectedAt) > 300*time.Millisecond && !qrecs[i].lost {
+							if on < 0 {
+								w.violate("C18", "reply_not_delivered_to_reconnected_client", "victim %d (client id %d, first connection closed by %s): the reply to its queued request number %d (timeout %d s) was due while connection number %d of the same client id had been connected for %v, and never arrived there", v, vc.ClientId, vc.CloseMode, i, 2+2*i, i+1, due.Sub(connectedAt))
+							} else {
+								w.violate("C18", "reply_to_stale_connection", "victim %d (client id %d): the reply to its queued request number %d arrived on connection %d, not on the client's current connection %d", v, vc.ClientId, i, on, ncid)
+							}
+						} else if on == ncid {
+							w.probe("chain_replies_delivered")
+						}
+						if i < vc.Chain {
+							nc.Close()
+							w.fault("chain_disconnect")
+						}
+					}
+					// the blocker lets go of this victim's keys now
+					chainDone[v] = true
 				}
 				if vc.Burst > 0 {
 					sleep(30 * time.Millisecond)
@@ -463,12 +524,34 @@ func runDisconnect(w *World) {
 		// the blocker lets go after a while: the queued requests of closed connections are granted or time out
 		sleep(time.Duration(body.BlockerHoldMs) * time.Millisecond)
 		for v, vc := range body.Victims {
+			if vc.Chain > 0 {
+				continue
+			}
 			for q := 0; q < vc.NQueued; q++ {
 				send(blk, bcid, &bidx, OpSpec{Cmd: 2, Key: 10*v + 5 + q, Lid: 900}, true)
 			}
 		}
-		for i := 0; fin < total && i < 6000; i++ {
+		released := map[int]bool{}
+		for i := 0; i < 6000; i++ {
+			for v, vc := range body.Victims {
+				if vc.Chain > 0 && chainDone[v] && !released[v] {
+					released[v] = true
+					for q := 0; q < vc.NQueued; q++ {
+						send(blk, bcid, &bidx, OpSpec{Cmd: 2, Key: 10*v + 5 + q, Lid: 900}, true)
+					}
+				}
+			}
+			if fin >= total {
+				break
+			}
 			sleep(10 * time.Millisecond)
+		}
+		for v, vc := range body.Victims {
+			if vc.Chain > 0 && !released[v] {
+				for q := 0; q < vc.NQueued; q++ {
+					send(blk, bcid, &bidx, OpSpec{Cmd: 2, Key: 10*v + 5 + q, Lid: 900}, true)
+				}
+			}
 		}
 		sleep(time.Duration(body.FinalWaitS) * time.Second)
 		ssched.NoPreempt(func() {
